@@ -152,6 +152,9 @@ def build_unit_text(unit, src):
         # R2: C enum generated from the real enumerator list
         items = [x.strip() for x in src.grab(rx, 1, scope).split(',') if x.strip()]
         out.append('enum %s { %s };\n' % (cname, ', '.join('%s__%s' % (cname, it) for it in items)))
+    for tname, rx, scope in getattr(unit, 'typedefs', []):
+        # R16: a member's type is taken from the real declaration
+        out.append('typedef %s %s;\n' % (src.grab(rx, 1, scope).strip(), tname))
     for macro, rx, scope in unit.consts:
         val = src.grab(rx, 1, scope)
         val, _ = L.lower(val, getattr(unit, 'const_rules', []))
